@@ -32,11 +32,46 @@ func ParentHash(l, r Hash) Hash {
 
 // LeafHash is the deterministic hash of the leaf inserted into slot i.
 // Distinct, non-zero, distinct in the first 12 bytes with overwhelming probability.
+//
+// About one leaf in five carries a hash with a special byte pattern, chosen by the slot number alone
+// (so a case stays a pure function of its slots): a library that tells "empty" by looking at part of
+// a hash, keys or compares hashes by some of their bytes, or encodes them with a shortcut for
+// particular byte values treats these leaves differently from their neighbours. Every pattern keeps
+// the leaves distinct in their first 12 bytes (the slot number is written into bytes 8..11) and
+// non-zero.
 func LeafHash(i int) Hash {
 	var b [12]byte
 	copy(b[:4], "leaf")
 	binary.LittleEndian.PutUint64(b[4:], uint64(i))
-	return sha256.Sum256(b[:])
+	h := sha256.Sum256(b[:])
+	if i < 0 || uint64(i) >= 1<<32 {
+		return h
+	}
+	tag := func() { binary.BigEndian.PutUint32(h[8:12], uint32(i)+1) }
+	switch i % 16 {
+	case 5: // eight leading zero bytes
+		for k := 0; k < 8; k++ {
+			h[k] = 0
+		}
+		tag()
+	case 11: // twenty trailing zero bytes: equal to every other such leaf from byte 12 on
+		for k := 12; k < 32; k++ {
+			h[k] = 0
+		}
+		tag()
+	case 14: // leading 0xff bytes, trailing 0xff bytes
+		for k := 0; k < 8; k++ {
+			h[k] = 0xff
+		}
+		for k := 24; k < 32; k++ {
+			h[k] = 0xff
+		}
+		tag()
+	case 6: // a single non-zero region: bytes 8..11 only (an even slot: the newest leaf of an odd-sized forest sits on a root)
+		h = Hash{}
+		tag()
+	}
+	return h
 }
 
 // FreshHash is a hash that is never a leaf nor (barring collisions) a node.
